@@ -7,9 +7,37 @@ Copulas (all built through rpylib.model.utils: create_clayton_copula / create_in
     Clayton theta x eta, independent, completely dependent; dimension 2 and 3.
         quick     theta in {0.3, 0.7, 1, 3}        x eta in {0, 0.3, 0.5, 1}
         thorough  theta in {0.1, 0.3, 0.7, 1, 3, 10} x eta in {0, 0.3, 0.5, 0.9, 1}
+    plus objects WITH A HISTORY ("twins", spec key `via`): the same public parameter values reached on a re-used object.
+    Every sub-check below runs on them exactly as on a freshly built object (violation keys get the suffix :via-<route>;
+    in the quick tier a twin gets one slice of the 3-d rectangle lattices and two of the six 2-d margins).  Routes:
+        set               built with other (theta, eta), both attributes re-assigned before any use
+        use-set           built with other values, every public entry point used (d = 2 and 3, all orthants, volume / margin
+                          operators, conditional distribution, inverse, derivative, repr), then theta and eta re-assigned
+        use-set-eta-first same, eta assigned before theta;   set-theta / set-eta: only one of the two attributes changes
+        round-trip        built with the target values, used, re-assigned to other values, used, re-assigned back
+        other-between     a second object of the class is built, used, re-parametrised and used in between (class-level state)
+        deepcopy-set      a deep copy of a used object is re-parametrised;   copy-sibling-set: a shallow copy of the used
+                          object is re-parametrised and used, the original is observed (shared mutable state)
+        pickle            re-parametrised, then sent through a dill round trip (what the engines' pool does)
+        int-parameters    integer-valued theta / eta handed over as Python ints
+        independent / dependent copulas: used, other-between, deepcopy, pickle
+      quick: one twin per Clayton route (targets (0.3,0.3), (0.7,0.5), (1,0), (3,1), (0.7,0.3) in turn, starting values off
+      the lattice), two int-parameter twins, two twins per parameter-free copula; thorough: one per route with targets
+      (0.1,0.9), (0.3,0.3), (0.7,0.5), (1,0), (3,1), (10,0.3), (0.7,0.3) in turn, three int-parameter twins, all plain routes,
+      full A8 / X3 3-d lattices and all six 2-d margins for every twin (the wide 3-d lattices A10 / X3W: fresh objects only).
 
 Sub-checks (alphabet / oracle)
- grounded   every u in (A + {-inf})^d with at least one zero entry: F(u) == 0 exactly.
+ history    (differential) for every ordered pair (from -> to) of the parameter menu {(0.3,0), (0.7,0.3), (1,0.5), (3,1)}
+            (thorough: 6 pairs of values) and every Clayton route, and for every route of the parameter-free copulas: the
+            object reached through the history gives the same values as a freshly built object with the same public
+            parameters for F on {-inf,-5,-0.2,-1e-200,0,1e-200,0.2,1,inf}^2 and {-inf,-1,0,0.2,5,inf}^3, the conditional
+            distribution on {+-0.2, +-5} x X, the inverse on {+-0.2, +-5} x U (one call), x_first_derivative on
+            {-5,-0.2,0,0.2,1}^d (equal, both nan, or 1e-13 relative: the two objects execute the same code on the same
+            parameters).  The fresh object is what all other sub-checks judge.  A history that cannot be carried out because
+            a public attribute rejects assignment (AttributeError) is counted `history_not_constructible`, never an alarm.
+ grounded   every u in (A14 + {-inf, -0.0} + extreme letters)^d with at least one zero entry: F(u) == 0 exactly.
+            Extreme letters: +-{1e-300, 1e-200, 1e-120, 1e-60, 1e-10, 1e10, 1e60, 1e120, 1e200, 1e300} (Clayton: those with
+            theta |log10 |u|| <= 300, see exclusions).
  volume     every rectangle (a, b] with a_i < b_i, a_i, b_i in the coordinate alphabet, EXCEPT those whose upper ends are all
             +inf (their volume involves F(inf,...,inf) = +inf, not a number the implementation is asked to produce).
             Observed: rpylib.model.levycopulamodel.volume(F, a, b) (F adapted to the generator the library hands over, as
@@ -19,32 +47,47 @@ Sub-checks (alphabet / oracle)
             A8 (d=2 and d=3, both tiers) = {-5, -1, -0.2, 0, 0.2, 1, 5, +inf}: 735 / 21 609 rectangles per copula;
             thorough in addition: d=3 on A10 = A8 + {-25, 25}: 90 396 rectangles per copula, and d=2 on the wide alphabet
             A14 = {-1e3, -25, -5, -1, -0.2, -1e-3, 0, 1e-3, 0.2, 1, 5, 25, 1e3, +inf}: 8 112 rectangles per copula.
- margin1    margin(F, [i], d)(u) == u for every i, every finite u of the (wide) alphabet including 0 (the operator itself
-            evaluates F at -inf / +inf in the other coordinates: the only place -inf occurs).
+            Extreme magnitudes (products of the arguments underflow to +-0.0, overflow, or are 0 * inf = nan):
+            X2 (d=2, quick) = +-{1e-300, 1e-200, 1e-10, 1, 1e10, 1e300} + {0, +inf}: 8 112 rectangles per copula;
+            X3 (d=3, both tiers) = {-1e120, -1e-120, -1e-200, 0, 1e-200, 1e-120, 1e120, +inf}: 21 609 per copula;
+            thorough: X2W = +-{1e-300, 1e-200, 1e-120, 1e-60, 1e-10, 1, 1e10, 1e60, 1e120, 1e200, 1e300} + {0, +inf} (75 647)
+            and X3W = X3 + {-1, 1} (90 396).  For the Clayton family the letters are filtered by theta (exclusions);
+            an alphabet left with fewer than 4 letters is skipped (X3 for theta >= 3).
+            Options of the margin operator: on the d=2 A8 lattice and on the first slice of the d=3 A8 lattice the volume is
+            also taken through margin(F, None, d) and margin(F, [0..d-1], d) (both denote F) and compared with the signed sum.
+ margin1    margin(F, [i], d)(u) == u for every i, every finite u of the (wide) alphabet including 0 and of the extreme
+            letters (the operator itself evaluates F at -inf / +inf in the other coordinates: the only place -inf occurs);
+            argument handed over as a list and as an array (as LevyCopulaModel.margin_tail_integral does).
  margin2    d = 3: the two-dimensional margins margin(F, [i, j], 3) (limits of 3-d rectangles whose third side is the whole
             line; this is where the margin operator takes the -inf limit) give a non-negative volume to every 2-d rectangle
             of A8 (thorough: A10), again through the library's volume and through an independent 3-d signed sum with third side (-inf, +inf].
- conditional (Clayton, 2-d) for eps in E, x along X = {-inf, -1e3, -25, -5, -1, -0.2, -0.04, -1e-3, 0, 1e-3, ..., 1e3, +inf}:
+            Index pairs in both orders: [0,1], [0,2], [1,2], [1,0], [2,0], [2,1].
+ conditional (Clayton, 2-d) for eps in E = +-{0.2, 1, 5, 1e-100, 1e100} (thorough: + +-{1e-3, 0.04, 25}), x along
+            X = {-inf, -1e300, -1e100, -1e3, -25, -5, -1, -0.2, -0.04, -1e-3, -1e-100, -1e-300, 0, 1e-300, ..., 1e300, +inf}:
             values in [0, 1], non-decreasing along X, 0 at -inf, 1 at +inf.  Inverse: F_eps(inv(eps, u)) = u for u in
             {k/16} + {1e-6, 1e-3, 1-1e-3, 1-1e-6}; inv(eps, F_eps(x)) = x for every finite x of X on whose half line F_eps is
             strictly increasing (orthant weight > 0; x = 0 needs both weights > 0).
+ inverse_mixed (Clayton) ONE vectorised call of the inverse with first arguments of both signs and every magnitude of E
+            (the series representation calls it with eps = tau (2 U - 1)) x U; F_eps(inverse) = u and the half line, per element.
  xderiv     (Clayton) x_first_derivative(u) against the central mixed finite difference of the copula at u, for u with
             finite non-zero entries of either sign from {0.2, 1, 5} (quick) / {0.04, 0.2, 1, 5, 25} (thorough), d = 2, 3.
             The statement is checked as written: x_first_derivative(u) = d^dF/du_1..du_d (u) * prod(u_i).  A failure is
             classified (the class is part of the violation key): the stated derivative equals the plain mixed partial
             derivative (product factor missing), minus the plain derivative, or is unrelated to it.  u with a zero entry:
-            the product is 0 and the mixed derivative is finite (limit 0), so the stated derivative must be exactly 0.
+            the product is 0 and the mixed derivative is finite (limit 0), so the stated derivative must be exactly 0
+            (zero entries 0.0 and -0.0; the other entries from the letters above and the extreme letters).
 
 Exact relations and tolerances (eps = 2^-52)
  * grounded: exact.  library volume vs signed sum: same 2^d rounded terms, only the order of summation differs:
    |difference| <= 4 * 2^d * eps * sum|terms|.
- * volume >= -slack with slack = (64 + 4 d / theta) * eps * sum|terms| (theta := 1 for the other two copulas).  Each Clayton
+ * volume >= -slack with slack = (64 + 4 d / theta + 2 L) * eps * sum|terms| (theta := 1 for the other two copulas).  Each Clayton
    term is computed with relative error <= (16 + d/theta) eps: one pow per argument, a d-term sum of positive numbers whose
    error is amplified 1/theta by the outer pow, the outer pow, the rounding of its exponent -1/theta (effect |ln F| eps/2
-   <= 9 eps on the alphabets), two products; summation adds 2^d eps.  The true volume is >= 0 (Kallsen-Tankov,
+   <= 9 eps on A8..A14; on any alphabet <= L eps / 2 with L = max |ln |letter|| <= 691, which is why the slack factor gets the
+   additional term 2 L), two products; summation adds 2^d eps.  The true volume is >= 0 (Kallsen-Tankov,
    Theorem 6.1 / Example 6.2, Theorems 4.4 and 4.6), so the computed one is >= -(that bound) * sum|terms|; the slack is 4
    times it.  A wrong formula gives volumes of relative size 1e-1 .. 1e0.
- * margin1: |m(u) - u| <= (64 + 16/theta) eps |u| (2^(d-1) terms each equal to a weight times |u| up to the pow roundings).
+ * margin1: |m(u) - u| <= (64 + 16/theta + 4 |ln |u||) eps |u| (2^(d-1) terms each equal to a weight times |u| up to the pow roundings).
  * conditional: monotone / range / limits with an absolute slack 16 eps (values are a base in [0,1] plus a product in [0,1]).
    F(inv(u)) = u: first-order forward error analysis (module function _tol_u) gives <= ~60 eps; used with a factor 4.
    inv(F(x)) = x is ill conditioned where F is flat; the relative tolerance 4 kappa eps is computed per point from the
@@ -69,7 +112,12 @@ on the orthants where the product is negative (keys ...:equals-minus-plain-mixed
 MarkovChainSDE._integral_zz, its only caller, integrate |x y| instead of x y).  inverse_conditional_distribution(eps > 0,
 u = 1 - eta) is nan for eta = 0.3 (u - 1 + eta is rounded differently from the test u >= 1 - eta): key ...:x=0.
 
-Outside the alphabet (statement silent or excluded): rectangles whose upper ends are all +inf; -inf as a rectangle end
+Outside the alphabet (statement silent or excluded): Clayton arguments with theta |log10 |u|| > 300 (|u|^-theta or its
+sum leaves the range of normal doubles: the formula returns 0 or inf there although the true value is representable - e.g.
+theta = 3, F(1e-120, inf) = 0 instead of 1e-120 eta; a limitation of evaluating the closed form in double precision, reported
+but not judged); extreme magnitudes in the finite-difference part of xderiv (|prod u|^(-theta-1) overflows; the mixed difference
+of arguments of very different size is lost in rounding); histories that poke private attributes or assign parameter values
+outside theta > 0, eta in [0, 1]; FrankLevyCopula (no helper in rpylib.model.utils offers it); rectangles whose upper ends are all +inf; -inf as a rectangle end
 (other than through the margin operator); margin at u = +inf; a_i >= b_i; eps = 0 in the conditional distribution;
 u in {0, 1} for the inverse; x on a half line that carries no mass (eta in {0, 1}); infinite arguments of
 x_first_derivative; conditional distribution / derivative of the independent and dependent copulas (not stated);
@@ -77,6 +125,7 @@ dimension > 3; d > 2 conditional distribution (the library raises NotImplemented
 """
 from __future__ import annotations
 
+import copy
 import itertools
 import math
 
@@ -90,7 +139,7 @@ LEVEL = "exploration"
 RULE = (
     "complete products: copula parameters x dimension x all rectangles (a_i < b_i) of the coordinate alphabet except those "
     "with all upper ends +inf; all zero-containing argument vectors; all (eps, x) / (eps, u) pairs; all sign/magnitude "
-    "tuples for the mixed derivative.  A case is non-trivial when at least one oracle comparison was made on real output; "
+    "tuples for the mixed derivative; all (route, from, to) histories of the route menu x parameter menu.  A case is non-trivial when at least one oracle comparison was made on real output; "
     "distinct = distinct case dict (copula, dimension, sub-check, slice of the rectangle lattice)"
 )
 ASSUMPTIONS = [
@@ -98,7 +147,10 @@ ASSUMPTIONS = [
     "rectangles whose upper ends are all +inf are excluded (F(inf,..,inf) = +inf is not a number the code is asked for)",
     "finite-difference oracle for the mixed derivative uses the proven truncation bound of the Clayton family stated in the "
     "module docstring plus a measured rounding bound; inconclusive points are counted, never alarmed",
-    "volume slack (64 + 4d/theta) eps sum|terms| from a forward error analysis of the Clayton formula in double precision",
+    "volume slack (64 + 4d/theta + 2 max|ln|letter||) eps sum|terms| from a forward error analysis of the Clayton formula in double precision",
+    "Clayton arguments with theta*|log10|u|| > 300 are excluded (the power |u|^-theta leaves the range of normal doubles)",
+    "objects with a history are compared with freshly built objects of the same public parameters (same code, same parameters: "
+    "equal up to 1e-13) and are judged by every sub-check; the menu of histories is the stated finite list of routes",
 ]
 
 EPS = 2.0 ** -52
@@ -107,8 +159,18 @@ INF = math.inf
 A8 = [-5.0, -1.0, -0.2, 0.0, 0.2, 1.0, 5.0, INF]
 A10 = [-25.0, -5.0, -1.0, -0.2, 0.0, 0.2, 1.0, 5.0, 25.0, INF]
 A14 = [-1e3, -25.0, -5.0, -1.0, -0.2, -1e-3, 0.0, 1e-3, 0.2, 1.0, 5.0, 25.0, 1e3, INF]
-ALPHABETS = {"A8": A8, "A10": A10, "A14": A14}
-XLAT = [-INF, -1e3, -25.0, -5.0, -1.0, -0.2, -0.04, -1e-3, 0.0, 1e-3, 0.04, 0.2, 1.0, 5.0, 25.0, 1e3, INF]
+# extreme magnitudes (arguments of a Levy copula are tail integrals: tiny far in the tails, huge next to the origin); the
+# products of two / three such letters underflow to +-0.0, overflow to +-inf, or give 0 * inf = nan
+XM2 = [1e-300, 1e-200, 1e-10, 1.0, 1e10, 1e300]
+XM2W = [1e-300, 1e-200, 1e-120, 1e-60, 1e-10, 1.0, 1e10, 1e60, 1e120, 1e200, 1e300]
+X2 = sorted([-m for m in XM2] + [0.0] + XM2) + [INF]
+X2W = sorted([-m for m in XM2W] + [0.0] + XM2W) + [INF]
+X3 = [-1e120, -1e-120, -1e-200, 0.0, 1e-200, 1e-120, 1e120, INF]
+X3W = [-1e120, -1.0, -1e-120, -1e-200, 0.0, 1e-200, 1e-120, 1.0, 1e120, INF]
+XEXT = sorted(set(x for x in X2W if x not in (0.0, 1.0, -1.0, INF)))  # extreme letters added to the point lattices
+ALPHABETS = {"A8": A8, "A10": A10, "A14": A14, "X2": X2, "X2W": X2W, "X3": X3, "X3W": X3W}
+XLAT = [-INF, -1e300, -1e100, -1e3, -25.0, -5.0, -1.0, -0.2, -0.04, -1e-3, -1e-100, -1e-300, 0.0,
+        1e-300, 1e-100, 1e-3, 0.04, 0.2, 1.0, 5.0, 25.0, 1e3, 1e100, 1e300, INF]
 ULAT = sorted([k / 16.0 for k in range(1, 16)] + [1e-6, 1e-3, 1 - 1e-3, 1 - 1e-6])
 RHOS = [1e-2, 3e-3, 1e-3, 3e-4, 1e-4]
 
@@ -127,43 +189,119 @@ def _copulas(tier):
     return out
 
 
+# Histories: the same parameter values reached on a RE-USED object (public attributes re-assigned after the object was
+# built with other values and used; another object of the class built / re-parametrised / used in between; copies).
+ROUTES_CLAYTON = ["set", "use-set", "use-set-eta-first", "set-theta", "set-eta", "round-trip", "other-between",
+                  "deepcopy-set", "copy-sibling-set", "pickle"]
+ROUTES_PLAIN = ["used", "other-between", "deepcopy", "pickle"]
+HIST_PARAMS = {"quick": [(0.3, 0.0), (0.7, 0.3), (1.0, 0.5), (3.0, 1.0)],
+               "thorough": [(0.1, 0.9), (0.3, 0.0), (0.7, 0.3), (1.0, 0.5), (3.0, 1.0), (10.0, 0.3)]}
+
+
+def _other_params(theta, eta):
+    """Parameter values the twin object starts from: both differ from the target, off the lattice."""
+    return [2.5 if theta < 1.5 else 0.4, 0.85 if eta < 0.5 else 0.15]
+
+
+def _twins(tier):
+    """Copula specs with a history (`via`): every sub-check is run on them as on freshly built objects."""
+    if tier == "thorough":
+        targets = [(0.1, 0.9), (0.3, 0.3), (0.7, 0.5), (1.0, 0.0), (3.0, 1.0), (10.0, 0.3), (0.7, 0.3)]
+    else:
+        targets = [(0.3, 0.3), (0.7, 0.5), (1.0, 0.0), (3.0, 1.0), (0.7, 0.3)]
+    out = []
+    for k, route in enumerate(ROUTES_CLAYTON):
+        t, e = targets[k % len(targets)]
+        out.append({"kind": "clayton", "theta": t, "eta": e, "via": {"route": route, "from": _other_params(t, e)}})
+    for t, e in ([(1.0, 0.0), (3.0, 1.0), (1.0, 1.0)] if tier == "thorough" else [(1.0, 0.0), (3.0, 1.0)]):
+        out.append({"kind": "clayton", "theta": t, "eta": e, "via": {"route": "int-parameters"}})
+    plain_routes = ROUTES_PLAIN if tier == "thorough" else ["other-between", "pickle"]
+    for kind in ("independent", "dependent"):
+        for route in plain_routes:
+            out.append({"kind": kind, "via": {"route": route}})
+    return out
+
+
 def _j(x):
     return core.jsonable(x)
 
 
+def _letters(name, cspec):
+    """Coordinate alphabet `name` for the copula: for the Clayton family the letters whose power |u|^-theta leaves the
+    range of normal doubles are dropped (theta * |log10 |u|| > 300; see the exclusions in the module docstring)."""
+    al = ALPHABETS[name]
+    if cspec["kind"] != "clayton":
+        return list(al)
+    th = float(cspec["theta"])
+    return [x for x in al if x == 0 or math.isinf(x) or th * abs(math.log10(abs(x))) <= 300.0 + 1e-9]
+
+
+def _ext_letters(cspec):
+    th = _theta(cspec)
+    return [x for x in XEXT if th * abs(math.log10(abs(x))) <= 300.0 + 1e-9]
+
+
 def cases(tier):
     thorough = tier == "thorough"
-    cops = _copulas(tier)
+    cops = _copulas(tier) + _twins(tier)
     out = []
     for c in cops:
         for d in (2, 3):
             out.append({"sub": "grounded", "copula": c, "dim": d})
             out.append({"sub": "margin1", "copula": c, "dim": d})
     for c in cops:
-        out.append({"sub": "volume", "copula": c, "dim": 2, "alphabet": "A8", "first": None})
+        out.append({"sub": "volume", "copula": c, "dim": 2, "alphabet": "A8", "first": None, "margin_options": True})
+    # differential histories: every (from -> to) pair of the parameter menu x every route, against a fresh object
+    hp = HIST_PARAMS[tier]
+    for route in ROUTES_CLAYTON:
+        for to in hp:
+            for frm in hp:
+                if frm != to:
+                    out.append({"sub": "history", "copula": {"kind": "clayton", "theta": to[0], "eta": to[1],
+                                                             "via": {"route": route, "from": list(frm)}}})
+    for t in (1.0, 3.0):
+        for e in (0.0, 1.0):
+            out.append({"sub": "history", "copula": {"kind": "clayton", "theta": t, "eta": e, "via": {"route": "int-parameters"}}})
+    for kind in ("independent", "dependent"):
+        for route in ROUTES_PLAIN:
+            out.append({"sub": "history", "copula": {"kind": kind, "via": {"route": route}}})
+    for c in cops:
+        out.append({"sub": "volume", "copula": c, "dim": 2, "alphabet": "X2W" if thorough else "X2", "first": None})
     if thorough:
         for c in cops:
             out.append({"sub": "volume", "copula": c, "dim": 2, "alphabet": "A14", "first": None})
     clay = [c for c in cops if c["kind"] == "clayton"]
-    eps_list = [0.2, 1.0, 5.0] + ([1e-3, 0.04, 25.0] if thorough else [])
+    eps_list = [0.2, 1.0, 5.0, 1e-100, 1e100] + ([1e-3, 0.04, 25.0] if thorough else [])
     for c in clay:
         for e in eps_list:
             for s in (1.0, -1.0):
                 out.append({"sub": "conditional", "copula": c, "eps": s * e})
+        out.append({"sub": "inverse_mixed", "copula": c, "eps": sorted(eps_list)})
     for c in clay:
         for d in (2, 3):
             out.append({"sub": "xderiv", "copula": c, "dim": d,
                         "mags": [0.04, 0.2, 1.0, 5.0, 25.0] if thorough else [0.2, 1.0, 5.0]})
     for c in cops:
-        for ij in ([0, 1], [0, 2], [1, 2]):
+        for ij in ([0, 1], [0, 2], [1, 2], [1, 0], [2, 0], [2, 1]) if (thorough or "via" not in c) else ([0, 1], [2, 0]):
             out.append({"sub": "margin2", "copula": c, "pair": ij, "alphabet": "A10" if thorough else "A8"})
     # 3-d rectangles: one case per (copula, first side)
-    for name3 in (["A8", "A10"] if thorough else ["A8"]):
-        al = ALPHABETS[name3]
+    for name3 in (["A8", "X3", "A10", "X3W"] if thorough else ["A8", "X3"]):
         for c in cops:
+            if "via" in c and name3 in ("A10", "X3W"):
+                continue  # the wide 3-d lattices are swept on freshly built objects only
+            al = _letters(name3, c)
+            if len(al) < 4:
+                continue  # Clayton with a large theta: no extreme letter survives the range filter
             for i in range(len(al)):
                 for k in range(i + 1, len(al)):
-                    out.append({"sub": "volume", "copula": c, "dim": 3, "alphabet": name3, "first": [_j(al[i]), _j(al[k])]})
+                    case = {"sub": "volume", "copula": c, "dim": 3, "alphabet": name3, "first": [_j(al[i]), _j(al[k])]}
+                    if name3 == "A8" and (i, k) == (0, 1):
+                        case["margin_options"] = True
+                    elif "via" in c and not thorough:
+                        # quick: objects with a history get one slice of the 3-d lattice (their values on all orthants
+                        # of dimension 3 are compared with a fresh object in the sub-check `history`)
+                        continue
+                    out.append(case)
     return out
 
 
@@ -171,8 +309,161 @@ def cases(tier):
 # helpers
 # ----------------------------------------------------------------------------------------------------------------------
 
+class _NotConstructible(Exception):
+    """the history of the spec cannot be carried out (a public attribute cannot be assigned): counted, never an alarm"""
+
+
+def _plain(cspec):
+    """A freshly built object (through the helpers of rpylib.model.utils)."""
+    return alphabets.make_copula({k: v for k, v in cspec.items() if k != "via"})
+
+
+_USE_POINTS = [(0.2, 5.0), (-1.0, 0.2), (-5.0, -1.0), (1.0, INF), (0.0, 1.0), (1.0, -INF), (1e-200, -1e-200),
+               (0.2, 5.0, 1.0), (-1.0, 0.2, -5.0), (-1.0, -1.0, -0.2), (INF, 1.0, -INF), (0.2, 0.0, 1.0)]
+
+
+def _use(cop, clayton):
+    """Every public entry point once, in both dimensions and on several orthants (results discarded): whatever an
+    implementation may compute lazily on first use is computed with the parameters of that moment."""
+    from rpylib.model.levycopulamodel import margin, volume
+
+    for u in _USE_POINTS:
+        cop(np.array(u, dtype=float))
+    margin(cop, [0], 2)([1.0])
+    margin(cop, [1], 3)([-0.2])
+    margin(cop, [0, 2], 3)([0.2, -1.0])
+    volume(_gen_adapter(cop), [-1.0, 0.2], [0.2, INF])
+    volume(_gen_adapter(cop), [-1.0, 0.0, 0.2], [1.0, 5.0, INF])
+    if clayton:
+        for eps in (1.0, -0.2):
+            for x in (-INF, -1.0, 0.0, 0.2, INF):
+                cop.conditional_distribution(eps, np.array([x]))
+        cop.inverse_conditional_distribution(np.array([1.0, -0.2, 5.0]), np.array([0.25, 0.5, 0.9]))
+        cop.x_first_derivative(np.array([0.2, -5.0]))
+        cop.x_first_derivative(np.array([1.0, 0.2, -1.0]))
+    repr(cop)
+
+
+def _assign(obj, **kw):
+    for name, value in kw.items():
+        try:
+            setattr(obj, name, value)
+        except AttributeError as e:  # read-only attribute: the history does not exist for this implementation
+            raise _NotConstructible(f"{type(obj).__name__}.{name} cannot be assigned: {e}")
+
+
+def _roundtrip(obj):
+    """Serialisation round trip, as the pool of the Monte-Carlo engines does with the processes it ships."""
+    try:
+        import dill as pk
+    except Exception:  # pragma: no cover
+        import pickle as pk
+    return pk.loads(pk.dumps(obj))
+
+
 def _make(cspec):
-    return alphabets.make_copula(cspec)
+    """The copula object of the spec.  Without `via`: freshly built.  With `via`: the same parameter values reached
+    through the history named by via['route'] (Clayton: starting from the parameter values via['from'])."""
+    via = cspec.get("via")
+    if not via:
+        return _plain(cspec)
+    route = via["route"]
+    kind = cspec["kind"]
+    if kind != "clayton":
+        c = _plain(cspec)
+        _use(c, False)
+        if route == "used":
+            return c
+        if route == "other-between":
+            _use(_plain(cspec), False)
+            _use(alphabets.make_copula({"kind": "clayton", "theta": 2.5, "eta": 0.85}), True)
+            return c
+        if route == "deepcopy":
+            return copy.deepcopy(c)
+        if route == "pickle":
+            return _roundtrip(c)
+        raise ValueError(cspec)
+
+    def mk(t, e):
+        return alphabets.make_copula({"kind": "clayton", "theta": t, "eta": e})
+
+    th, et = float(cspec["theta"]), float(cspec["eta"])
+    if route == "int-parameters":  # integer-valued parameters handed over as Python ints
+        if th != int(th) or et != int(et):
+            raise ValueError(cspec)
+        return mk(int(th), int(et))
+    th0, et0 = (float(x) for x in via["from"])
+
+    if route == "set":  # built with other values, re-parametrised before any use
+        c = mk(th0, et0)
+        _assign(c, theta=th, eta=et)
+        return c
+    if route == "use-set":
+        c = mk(th0, et0)
+        _use(c, True)
+        _assign(c, theta=th, eta=et)
+        return c
+    if route == "use-set-eta-first":
+        c = mk(th0, et0)
+        _use(c, True)
+        _assign(c, eta=et)
+        _assign(c, theta=th)
+        return c
+    if route == "set-theta":  # only theta changes
+        c = mk(th0, et)
+        _use(c, True)
+        _assign(c, theta=th)
+        return c
+    if route == "set-eta":  # only eta changes
+        c = mk(th, et0)
+        _use(c, True)
+        _assign(c, eta=et)
+        return c
+    if route == "round-trip":  # away and back
+        c = mk(th, et)
+        _use(c, True)
+        _assign(c, theta=th0, eta=et0)
+        _use(c, True)
+        _assign(c, theta=th, eta=et)
+        return c
+    if route == "other-between":  # a second object of the class is built, used, re-parametrised, used in between
+        c = mk(th, et)
+        _use(c, True)
+        o = mk(th0, et0)
+        _use(o, True)
+        _assign(o, theta=1.5 * th0, eta=1.0 - et0)
+        _use(o, True)
+        return c
+    if route == "deepcopy-set":  # a deep copy of a used object is re-parametrised
+        o = mk(th0, et0)
+        _use(o, True)
+        c = copy.deepcopy(o)
+        _assign(c, theta=th, eta=et)
+        return c
+    if route == "copy-sibling-set":  # a shallow copy is re-parametrised and used; the original is observed
+        c = mk(th, et)
+        _use(c, True)
+        o = copy.copy(c)
+        _assign(o, theta=th0, eta=et0)
+        _use(o, True)
+        return c
+    if route == "pickle":  # re-parametrised, then shipped
+        o = mk(th0, et0)
+        _use(o, True)
+        _assign(o, theta=th, eta=et)
+        return _roundtrip(o)
+    raise ValueError(cspec)
+
+
+def _via_cls(cspec):
+    via = cspec.get("via")
+    return ("via-" + via["route"]) if via else "fresh"
+
+
+def _vk(cspec):
+    """suffix of the violation keys: empty for freshly built objects (keys unchanged), the route for objects with a history"""
+    via = cspec.get("via")
+    return (":via-" + via["route"]) if via else ""
 
 
 def _kind(cspec):
@@ -209,8 +500,10 @@ def _gen_adapter(cop):
     return f
 
 
-def _slack_factor(cspec, d):
-    return 64.0 + 4.0 * d / _theta(cspec)
+def _slack_factor(cspec, d, letters=()):
+    """(64 + 4 d / theta + 2 L) with L = max |ln |letter||: see the tolerances in the module docstring"""
+    big = max([abs(math.log(abs(x))) for x in letters if x != 0 and math.isfinite(x)] or [0.0])
+    return 64.0 + 4.0 * d / _theta(cspec) + 2.0 * big
 
 
 def _pairs(al):
@@ -221,7 +514,9 @@ def _rect_class(a, b):
     straddle = sum(1 for x, y in zip(a, b) if x < 0 < y)
     touch = sum(1 for x, y in zip(a, b) if x == 0 or y == 0)
     inf = any(math.isinf(y) for y in b)
-    return f"{straddle}-sides-straddle-0:{'touches-axis' if touch else 'off-axis'}:{'some-upper-inf' if inf else 'finite'}"
+    ext = any(x != 0 and math.isfinite(x) and not 1e-50 <= abs(x) <= 1e50 for x in list(a) + list(b))
+    return (f"{straddle}-sides-straddle-0:{'touches-axis' if touch else 'off-axis'}:{'some-upper-inf' if inf else 'finite'}"
+            + (":extreme-magnitudes" if ext else ""))
 
 
 def _iter_diff(vals, a_idx, b_idx):
@@ -250,7 +545,11 @@ def check_case(sh, case):
 
         with warnings.catch_warnings():
             warnings.simplefilter("ignore")
-            globals()["_sub_" + case["sub"]](sh, case)
+            try:
+                globals()["_sub_" + case["sub"]](sh, case)
+            except _NotConstructible as e:
+                sh.count("history_not_constructible")
+                sh.note(f"history not constructible: {e}")
 
 
 # ----------------------------------------------------------------------------------------------------------------------
@@ -261,7 +560,7 @@ def _sub_grounded(sh, case):
     cspec, d = case["copula"], case["dim"]
     cop = _make(cspec)
     f = _F(cop)
-    letters = [-INF] + A14
+    letters = [-INF] + A14 + _ext_letters(cspec) + [-0.0]
     bad = 0
     n = 0
     for u in itertools.product(letters, repeat=d):
@@ -271,11 +570,12 @@ def _sub_grounded(sh, case):
         v = f(u)
         if not v == 0.0:
             bad += 1
-            sh.violation(f"C11:grounded:{_kind(cspec)}:d{d}:nonzero-with-a-zero-argument:{_eta_cls(cspec)}",
+            sh.violation(f"C11:grounded:{_kind(cspec)}:d{d}:nonzero-with-a-zero-argument:{_eta_cls(cspec)}{_vk(cspec)}",
                          f"{cop!r}: F{tuple(u)} = {v!r}, expected 0", {"u": u, "value": v})
     sh.count("evaluations", n)
     sh.count("grounded_points", n)
     sh.cls(f"grounded:d{d}:{_kind(cspec)}")
+    sh.cls(f"history:{_via_cls(cspec)}")
     sh.outcome(("grounded", _j(cspec), d, n, bad))
     sh.nontriv()
 
@@ -285,15 +585,21 @@ def _sub_grounded(sh, case):
 # ----------------------------------------------------------------------------------------------------------------------
 
 def _sub_volume(sh, case):
-    from rpylib.model.levycopulamodel import volume
+    from rpylib.model.levycopulamodel import margin, volume
 
     cspec, d = case["copula"], case["dim"]
-    al = ALPHABETS[case["alphabet"]]
+    al = _letters(case["alphabet"], cspec)
     cop = _make(cspec)
     f = _F(cop)
     fg = _gen_adapter(cop)
-    kind, ecls = _kind(cspec), _eta_cls(cspec)
-    sf = _slack_factor(cspec, d)
+    kind, ecls = _kind(cspec), _eta_cls(cspec) + _vk(cspec)
+    sf = _slack_factor(cspec, d, al)
+    # rarely used options of the margin operator: I = None and I = all indices both denote the copula itself
+    m_opts = []
+    if case.get("margin_options"):
+        m_none = margin(cop, None, d)
+        m_full = margin(cop, list(range(d)), d)
+        m_opts = [("indices=None", lambda g: m_none(np.fromiter(g, dtype=float))), ("indices=all", lambda g: m_full(list(g)))]
     n = len(al)
     top = tuple([n - 1] * d)  # (inf, ..., inf): never a vertex of an admitted rectangle
     vals = {}
@@ -337,6 +643,13 @@ def _sub_volume(sh, case):
                 sh.violation(f"C11:volume:{kind}:d{d}:negative-volume:{ecls}:{rc}",
                              f"{cop!r}: volume of ({a}, {b}] = {lib!r} < 0 (signed sum {mine!r}, slack {slack:.3g})",
                              {"a": a, "b": b, "library": lib, "signed_sum": mine, "slack": slack})
+            for oname, fo in m_opts:
+                vo = float(volume(fo, a, b))
+                cnt += 1
+                if not abs(vo - mine) <= 4 * 2 ** d * EPS * sabs:  # also catches nan
+                    sh.violation(f"C11:volume:{kind}:d{d}:volume-through-margin-option-differs-from-signed-sum:{oname}:{ecls}:{rc}",
+                                 f"{cop!r}: volume(margin(F, {oname}, {d})) over ({a}, {b}] = {vo!r}, signed sum of F over the vertices = {mine!r}",
+                                 {"a": a, "b": b, "option": oname, "library": vo, "signed_sum": mine})
             if sabs > 0:
                 minrel = min(minrel, lib / sabs)
             sig += lib if math.isfinite(lib) else 0.0
@@ -344,8 +657,10 @@ def _sub_volume(sh, case):
     sh.count("evaluations", cnt)
     sh.count(f"rectangles_d{d}", cnt)
     sh.outcome(("volume", _j(cspec), d, case["alphabet"], _j(case.get("first")), cnt, round(sig, 9)))
-    sh.nontriv()
-    if kind == "clayton" and case.get("first") is None and cspec["theta"] == 0.7 and cspec["eta"] == 0.3:
+    sh.cls(f"history:{_via_cls(cspec)}")
+    if cnt:
+        sh.nontriv()
+    if kind == "clayton" and case.get("first") is None and cspec["theta"] == 0.7 and cspec["eta"] == 0.3 and "via" not in cspec:
         sh.sample({"sub": "volume", "copula": cspec, "dim": d, "alphabet": case["alphabet"], "rectangles": cnt,
                    "smallest volume / sum|terms|": minrel})
 
@@ -356,12 +671,12 @@ def _sub_margin2(sh, case):
     cspec = case["copula"]
     i, j = case["pair"]
     (k,) = set(range(3)) - {i, j}
-    al = ALPHABETS[case["alphabet"]]
+    al = _letters(case["alphabet"], cspec)
     cop = _make(cspec)
     f = _F(cop)
-    kind, ecls = _kind(cspec), _eta_cls(cspec)
+    kind, ecls = _kind(cspec), _eta_cls(cspec) + _vk(cspec)
     m2 = margin(cop, [i, j], 3)
-    sf = _slack_factor(cspec, 3)
+    sf = _slack_factor(cspec, 3, al)
     n = len(al)
     letters3 = {i: al, j: al, k: [-INF, INF]}
     vals = {}
@@ -413,18 +728,21 @@ def _sub_margin1(sh, case):
     cop = _make(cspec)
     kind = _kind(cspec)
     tol_f = (64.0 + 16.0 / _theta(cspec)) * EPS
-    us = [x for x in A14 if math.isfinite(x)]
+    us = sorted([x for x in A14 if math.isfinite(x)] + _ext_letters(cspec))
     worst = 0.0
     n = 0
     for i in range(d):
         m = margin(cop, [i], d)
-        for u in us:
-            v = float(m([u]))
+        for u, form in itertools.product(us, ("list", "array")):
+            # argument as a list, and as the array LevyCopulaModel.margin_tail_integral hands over
+            v = float(m([u] if form == "list" else np.array([u])))
             n += 1
             ucls = "u=0" if u == 0 else ("u>0" if u > 0 else "u<0")
-            ok = (v == 0.0) if u == 0 else (abs(v - u) <= tol_f * abs(u))
+            ok = (v == 0.0) if u == 0 else (abs(v - u) <= (tol_f + 4.0 * abs(math.log(abs(u))) * EPS) * abs(u))
+            if u != 0 and not 1e-50 <= abs(u) <= 1e50:
+                ucls += ":extreme-magnitude"
             if not ok:
-                sh.violation(f"C11:margin1:{kind}:d{d}:one-dimensional-margin-not-identity:{_eta_cls(cspec)}:{ucls}",
+                sh.violation(f"C11:margin1:{kind}:d{d}:one-dimensional-margin-not-identity:{_eta_cls(cspec)}{_vk(cspec)}:{ucls}",
                              f"{cop!r}: margin(F, [{i}], {d})({u}) = {v!r}, expected {u}", {"i": i, "u": u, "value": v})
             elif u != 0:
                 worst = max(worst, abs(v - u) / abs(u))
@@ -433,7 +751,7 @@ def _sub_margin1(sh, case):
     sh.count("margin1_points", n)
     sh.outcome(("margin1", _j(cspec), d, n))
     sh.nontriv()
-    if kind == "clayton" and cspec["theta"] == 0.3 and cspec["eta"] == 0.3:
+    if kind == "clayton" and cspec["theta"] == 0.3 and cspec["eta"] == 0.3 and "via" not in cspec:
         sh.sample({"sub": "margin1", "copula": cspec, "dim": d, "points": n, "largest relative deviation": worst})
 
 
@@ -457,9 +775,12 @@ def _tol_u(theta):
 def _kappa_x(theta, w, eps, x):
     """First-order bound (in units of eps) of the relative error of inv(eps, F_eps(x)) for x != 0."""
     p = 1.0 + 1.0 / theta
-    y = abs(eps / x) ** theta
-    g = (1.0 + y) ** (-p)
-    if g <= 0.0 or y <= 0.0:
+    try:
+        y = abs(eps / x) ** theta
+        g = (1.0 + y) ** (-p)
+    except (OverflowError, ZeroDivisionError):
+        return INF
+    if not (g > 0.0 and 0.0 < y < INF):
         return INF
     lng = abs(math.log(g))
     dg = p * (theta + 3.0) + lng + 2.0
@@ -472,7 +793,7 @@ def _sub_conditional(sh, case):
     eps = float(case["eps"])
     cop = _make(cspec)
     ecls = _eta_cls(cspec)
-    scls = "eps>0" if eps > 0 else "eps<0"
+    scls = ("eps>0" if eps > 0 else "eps<0") + ("" if 1e-50 <= abs(eps) <= 1e50 else ":extreme-eps") + _vk(cspec)
     n = 0
 
     def F(x):
@@ -555,9 +876,51 @@ def _sub_conditional(sh, case):
     sh.count("conditional_points", n)
     sh.outcome(("conditional", _j(cspec), eps, [round(v, 12) for v in vals[1:-1:3]]))
     sh.nontriv()
-    if theta == 0.7 and eta == 0.3 and abs(eps) == 1.0:
+    sh.cls(f"history:{_via_cls(cspec)}")
+    if theta == 0.7 and eta == 0.3 and abs(eps) == 1.0 and "via" not in cspec:
         sh.sample({"sub": "conditional", "copula": cspec, "eps": eps, "F_eps along X": vals,
                    "max |F(inv(u)) - u| / eps": worst_u, "max observed/bound for inv(F(x))": worst_k})
+
+
+def _sub_inverse_mixed(sh, case):
+    """One vectorised call of the inverse with first arguments of BOTH signs and all magnitudes of the menu (the series
+    representation calls it with eps = tau (2 U - 1)); F_eps(inverse) = u is then checked element by element."""
+    cspec = case["copula"]
+    theta, eta = cspec["theta"], cspec["eta"]
+    cop = _make(cspec)
+    ecls = _eta_cls(cspec)
+    eps_all = [s * float(e) for e in case["eps"] for s in (1.0, -1.0)]
+    pairs = [(e, u) for e in eps_all for u in ULAT]
+    es = np.array([p[0] for p in pairs])
+    us = np.array([p[1] for p in pairs])
+    xs = np.asarray(cop.inverse_conditional_distribution(es, us), dtype=float)
+    tol = 4.0 * _tol_u(theta) * EPS
+    n = 0
+    bad = 0
+    if xs.shape != us.shape:
+        sh.violation(f"C11:inverse:clayton:mixed-sign-call:wrong-shape:{ecls}{_vk(cspec)}",
+                     f"{cop!r}: inverse_conditional_distribution of arrays of shape {us.shape} has shape {xs.shape}", {})
+        xs = np.full(us.shape, np.nan)
+    for (e, u), x in zip(pairs, xs):
+        n += 1
+        scls = "eps>0" if e > 0 else "eps<0"
+        brk = (1.0 - eta) if e > 0 else eta
+        ucls = "u=break" if u == brk else ("u<break" if u < brk else "u>break")
+        back = float(np.asarray(cop.conditional_distribution(e, np.array([float(x)]))).reshape(-1)[0]) if not math.isnan(x) else math.nan
+        if not abs(back - u) <= tol:  # also catches nan
+            bad += 1
+            sh.violation(f"C11:inverse:clayton:mixed-sign-call:F-of-inverse-differs:{ecls}:{scls}:{ucls}{_vk(cspec)}",
+                         f"{cop!r}: in one call with first arguments of both signs, inverse({e}, {u}) = {x!r} but F_eps of it = {back!r}",
+                         {"eps": e, "u": u, "x": float(x), "F": back, "tol": tol})
+        elif u != brk and (x > 0) != (u > brk):
+            bad += 1
+            sh.violation(f"C11:inverse:clayton:mixed-sign-call:inverse-on-wrong-half-line:{ecls}:{scls}:{ucls}{_vk(cspec)}",
+                         f"{cop!r}: inverse({e}, {u}) = {x!r}; F_eps(0) = {brk}", {"eps": e, "u": u, "x": float(x)})
+    sh.count("evaluations", n)
+    sh.count("inverse_mixed_points", n)
+    sh.cls("inverse:mixed-sign-call")
+    sh.outcome(("inverse_mixed", _j(cspec), n, bad, [round(float(x), 9) for x in xs[:: max(1, len(xs) // 7)] if math.isfinite(x)]))
+    sh.nontriv()
 
 
 # ----------------------------------------------------------------------------------------------------------------------
@@ -635,7 +998,7 @@ def _sub_xderiv(sh, case):
             fc = "equals-minus-plain-mixed-derivative-not-times-product"
         else:
             fc = "unrelated-to-mixed-derivative"
-        sh.violation(f"C11:xderiv:clayton:d{d}:{fc}:{ecls}:{pcls}",
+        sh.violation(f"C11:xderiv:clayton:d{d}:{fc}:{ecls}:{pcls}{_vk(cspec)}",
                      f"{cop!r}: x_first_derivative({list(u)}) = {X!r}; central mixed difference of the copula = {fd!r} "
                      f"(rho {rho}, bound {tol:.3g}), times the product of the arguments ({P!r}) = {P * fd!r}",
                      {"u": u, "x_first_derivative": X, "mixed_difference": fd, "product": P, "expected": P * fd,
@@ -643,22 +1006,92 @@ def _sub_xderiv(sh, case):
         if len(sig) < 6:
             sig.append(round(X, 9))
     # zero entries: product 0, mixed derivative finite => exactly 0
-    zl = sorted(set(letters) | {0.0})
+    zl = sorted(set(letters) | {0.0} | set(_ext_letters(cspec))) + [-0.0]
     for u in itertools.product(zl, repeat=d):
         if 0.0 not in u:
             continue
         X = float(cop.x_first_derivative(np.array(u, dtype=float)))
         n += 1
         if not X == 0.0:
-            sh.violation(f"C11:xderiv:clayton:d{d}:nonzero-with-a-zero-argument:{ecls}",
+            sh.violation(f"C11:xderiv:clayton:d{d}:nonzero-with-a-zero-argument:{ecls}{_vk(cspec)}",
                          f"{cop!r}: x_first_derivative({list(u)}) = {X!r}, expected 0", {"u": u, "value": X})
     sh.count("evaluations", n)
     sh.count("xderiv_points", n)
     sh.outcome(("xderiv", _j(cspec), d, n, sig))
     sh.nontriv()
-    if theta == 0.7 and cspec["eta"] == 0.3:
+    sh.cls(f"history:{_via_cls(cspec)}")
+    if theta == 0.7 and cspec["eta"] == 0.3 and "via" not in cspec:
         u = tuple([0.2, 5.0, 1.0][:d])
         X = float(cop.x_first_derivative(np.array(u)))
         fd, tol = _fd(f, u, 1e-3, theta)
         sh.sample({"sub": "xderiv", "copula": cspec, "u": u, "x_first_derivative": X, "mixed_difference": fd, "bound": tol,
                    "largest |X - P FD| / tolerance among agreeing points": worst})
+
+
+# ----------------------------------------------------------------------------------------------------------------------
+# histories on a re-used object against a freshly built one
+# ----------------------------------------------------------------------------------------------------------------------
+
+_H2 = [-INF, -5.0, -0.2, -1e-200, 0.0, 1e-200, 0.2, 1.0, INF]
+_H3 = [-INF, -1.0, 0.0, 0.2, 5.0, INF]
+_HX = [-5.0, -0.2, 0.0, 0.2, 1.0]
+
+
+def _observe(cop, clayton):
+    """Every public function on a fixed lattice: list of (function, argument, value)."""
+    obs = []
+    for u in itertools.product(_H2, repeat=2):
+        obs.append(("call:d2", u, float(cop(np.array(u, dtype=float)))))
+    for u in itertools.product(_H3, repeat=3):
+        obs.append(("call:d3", u, float(cop(np.array(u, dtype=float)))))
+    if clayton:
+        for eps in (0.2, -0.2, 5.0, -5.0):
+            for x in XLAT:
+                obs.append(("conditional_distribution", (eps, x),
+                            float(np.asarray(cop.conditional_distribution(eps, np.array([x]))).reshape(-1)[0])))
+        es = np.array([e for e in (0.2, -0.2, 5.0, -5.0) for _ in ULAT])
+        us = np.array([u for _ in range(4) for u in ULAT])
+        xs = np.asarray(cop.inverse_conditional_distribution(es, us), dtype=float)
+        for e, u, x in zip(es, us, xs):
+            obs.append(("inverse_conditional_distribution", (float(e), float(u)), float(x)))
+        for d in (2, 3):
+            for u in itertools.product(_HX, repeat=d):
+                obs.append((f"x_first_derivative:d{d}", u, float(cop.x_first_derivative(np.array(u, dtype=float)))))
+    return obs
+
+
+def _same(a, b):
+    if math.isnan(a) or math.isnan(b):
+        return math.isnan(a) and math.isnan(b)
+    return a == b or abs(a - b) <= 1e-13 * max(abs(a), abs(b))
+
+
+def _sub_history(sh, case):
+    """The object reached through the history behaves as a freshly built object with the same public parameters, on
+    every public function (the fresh object is what all other sub-checks judge)."""
+    cspec = case["copula"]
+    clayton = cspec["kind"] == "clayton"
+    route = cspec["via"]["route"]
+    used = _make(cspec)
+    fresh = _plain(cspec)
+    a = _observe(used, clayton)
+    b = _observe(fresh, clayton)
+    n = 0
+    bad = 0
+    seen = set()
+    for (fn, arg, va), (_, _, vb) in zip(a, b):
+        n += 1
+        if not _same(va, vb):
+            bad += 1
+            if fn not in seen or bad <= 3:
+                seen.add(fn)
+                sh.violation(f"C11:history:{cspec['kind']}:{fn}:differs-from-a-freshly-built-object-with-the-same-parameters:via-{route}",
+                             f"{used!r} reached through the history {route!r} (from {cspec['via'].get('from')}): {fn}{tuple(arg)} = {va!r}, "
+                             f"a freshly built {fresh!r} gives {vb!r}", {"function": fn, "argument": arg, "re-used": va, "fresh": vb})
+    sh.count("evaluations", n)
+    sh.count("history_points", n)
+    sh.cls(f"history:via-{route}")
+    sh.outcome(("history", _j(cspec), n, bad, round(sum(v for _, _, v in a if math.isfinite(v)), 9)))
+    sh.nontriv()
+    if clayton and route == "use-set" and cspec["theta"] == 0.7 and cspec["via"]["from"] == [3.0, 1.0]:
+        sh.sample({"sub": "history", "copula": cspec, "points compared with a fresh object": n, "differences": bad})
